@@ -10,5 +10,6 @@ CONSTANTS
   Slack = 1
   Faults = {"start", "delay", "initiate", "waiter", "next"}
   BadMsgs = {FALSE, TRUE}
+  ArrivalsPerState = 1
   Prompt = FALSE
 INVARIANTS Emit
